@@ -853,6 +853,127 @@ def write_attempt_walk(ck):
     return host, fas, sites, targets
 
 
+def _suppressed(fa, site):
+    """Is `site` in the body of `with contextlib.suppress(<types covering OSError>)`?"""
+    for w in _with_ancestors(fa, site):
+        for it in w.items:
+            e = it.context_expr
+            if isinstance(e, ast.Call) and A.call_attr(e) == "suppress" and any(A.norm(t).split(".")[-1] in OSERROR_NAMES - {"Exception", "BaseException"} for t in e.args):
+                return True
+    return False
+
+
+def _swallowing_manager(ck, fa, site):
+    """The `with` spelling of "except IOError": `site` stands in the body of a `with` whose context manager is an
+    instance of a class of the module, and that class's __exit__, given an OSError, answers truthy on every path (the
+    error is swallowed and control continues after the `with`).
+    -> (with statement, manager expression text, {field: constant __exit__ leaves in it on those paths}, FA of __exit__) or None."""
+    for w in _with_ancestors(fa, site):
+        for it in w.items:
+            mgr = it.context_expr
+            ctor = mgr
+            if isinstance(mgr, ast.Name) and fa.nodes(w):
+                ds = fa.df.reaching(fa.nodes(w)[0], mgr.id)
+                if len(ds) != 1 or ds[0].kind != "assign" or ds[0].value is None:
+                    continue
+                ctor = ds[0].value
+            if not (isinstance(ctor, ast.Call) and isinstance(ctor.func, ast.Name)):
+                continue
+            cls = fa.fi.module.classes.get(ctor.func.id)
+            ex = cls.methods.get("__exit__") if cls is not None else None
+            if ex is None or len(ex.params) < 3:
+                continue
+            fx = FA(ck, ex)
+            me, etype, evalue = ex.params[0], ex.params[1], ex.params[2]
+
+            def atom(e, etype=etype, evalue=evalue):
+                if isinstance(e, ast.Name) and e.id in (etype, evalue):
+                    return True
+                if isinstance(e, ast.Compare) and len(e.ops) == 1 and isinstance(e.ops[0], ast.Is) and isinstance(e.left, ast.Name) \
+                        and e.left.id in (etype, evalue) and A.is_none(e.comparators[0]):
+                    return False
+                if isinstance(e, ast.Call) and A.call_attr(e) in ("isinstance", "issubclass") and len(e.args) == 2 \
+                        and isinstance(e.args[0], ast.Name) and e.args[0].id in (etype, evalue):
+                    ts = e.args[1].elts if isinstance(e.args[1], ast.Tuple) else [e.args[1]]
+                    return True if any(A.norm(t).split(".")[-1] in OSERROR_NAMES for t in ts) else None
+                return None
+            asm = Assume(fx, atom)
+            live = asm.reach()
+            # fields the error path leaves set to a constant: assigned on every path to the exit, and only to that
+            fields = {}
+            for st in fx.stmts(ast.Assign):
+                for t in st.targets:
+                    if isinstance(t, ast.Attribute) and isinstance(t.value, ast.Name) and t.value.id == me and isinstance(st.value, ast.Constant):
+                        ids = [i for i in fx.nodes(st) if i in live]
+                        if ids and fx.cfg.exit not in fx.cfg.reach([fx.cfg.entry], removed=ids, edge_ok=asm.edge_ok):
+                            fields.setdefault(t.attr, set()).add(st.value.value)
+            fields = {f: vs.pop() for (f, vs) in fields.items() if len(vs) == 1}
+
+            def truthy(e, n):
+                if isinstance(e, ast.Attribute) and isinstance(e.value, ast.Name) and e.value.id == me and e.attr in fields:
+                    return bool(fields[e.attr])
+                return asm.truth(e, n)
+            rets = [(r, i) for r in fx.returns() for i in fx.nodes(r) if i in live]
+            if not rets or fx.cfg.exit in fx.cfg.reach([fx.cfg.entry], removed=[i for (_r, i) in rets], edge_ok=asm.edge_ok):
+                continue               # can fall off the end (answers None: the error propagates)
+            if all(r.value is not None and all(truthy(e, n) is True for (e, n) in asm.cases(r.value, i)) for (r, i) in rets):
+                name = mgr.id if isinstance(mgr, ast.Name) else (it.optional_vars.id if isinstance(it.optional_vars, ast.Name) else None)
+                return w, (name, cls.name), fields, fx
+    return None
+
+
+def _invalid_after_swallow(fa, w, mgr, fields):
+    """After the `with` statement `w` has swallowed an error, every answer of the function is "not valid": each return that
+    control can reach from the `with` and that lies outside it carries valid_result False once the manager's fields
+    hold what its __exit__ left in them."""
+    def atom(e):
+        if isinstance(e, ast.Attribute) and e.attr in fields and (
+                (isinstance(e.value, ast.Name) and e.value.id == mgr[0]) or
+                (isinstance(e.value, ast.Call) and isinstance(e.value.func, ast.Name) and e.value.func.id == mgr[1])):
+            return bool(fields[e.attr])
+        return None
+    asm = Assume(fa, atom)
+    after = fa.cfg.reach(fa.nodes(w))
+    rets = [(r, i) for r in fa.returns() if not fa.inside(r, w) for i in fa.nodes(r) if i in after]
+    if not rets:
+        return False
+    for (r, i) in rets:
+        if r.value is None:
+            return False
+        for (leaf, n) in asm.cases(r.value, i, fa.df.IN):
+            if not (isinstance(leaf, ast.Call) and A.call_attr(leaf) == "ExistingMementoResult"):
+                return False
+            v = A.kwarg(leaf, "valid_result") or (leaf.args[1] if len(leaf.args) >= 2 else None)
+            if v is None or asm.truth(v, n) is not False:
+                return False
+    return True
+
+
+def _guarding_wrapper(ck, fi):
+    """(FA of the wrapper, the wrapper's call of the wrapped function) when `fi` is defined under a decorator of its
+    own module that replaces it by a nested function calling it (`def deco(step): def guarded(*a): ... step(*a) ...;
+    return guarded`): whatever surrounds that call in the wrapper surrounds every statement of `fi`."""
+    for d in fi.node.decorator_list:
+        dn = d.func if isinstance(d, ast.Call) else d
+        if not isinstance(dn, ast.Name):
+            continue
+        deco = fi.module.functions.get(dn.id)
+        if deco is None or not deco.params or isinstance(d, ast.Call):
+            continue
+        wrapped = deco.params[0]
+        for w in deco.nested.values():
+            # the decorator hands back the nested function (directly or through functools.wraps(...)(w) / a temporary)
+            returned = any(isinstance(r, ast.Return) and r.value is not None and any(isinstance(x, ast.Name) and x.id == w.name for x in ast.walk(r.value))
+                           for r in A.walk_body(deco.node))
+            if not returned:
+                continue
+            fw = FA(ck, w)
+            calls = [c for c in fw.calls() if isinstance(c.func, ast.Name) and c.func.id == wrapped and fw.nodes(c)]
+            if calls:
+                return fw, calls[0]
+    return None
+
+
 def check_recovery(ck):
     R = "C08.R3"
     ck.rule(R, "absorb and recover: I/O errors are absorbed around memoize in the local runner, around the read in "
@@ -865,6 +986,10 @@ def check_recovery(ck):
         trys = _try_around(rl, c)
         hs = [h for t in trys for h in t.handlers if _handler_covers_oserror(h) and A.norm(h.type) not in ("Exception", "BaseException")]
         ok = bool(hs) and all(not any(isinstance(n, ast.Raise) for n in A.walk_local(h)) for h in hs[:1])
+        if not hs and (_suppressed(rl, c) or _swallowing_manager(ck, rl, c) is not None):
+            # the `with` spelling of the handler: contextlib.suppress(IOError) / a manager of the module whose __exit__
+            # swallows an OSError — control continues after the `with`
+            ok = True
         ck.ob(R, rl.key(c, "absorb-write-error"), ok, "an I/O error while memoizing is logged and swallowed; the computed result is still returned" if ok else
               "an I/O error raised by memoize escapes (or is re-raised): the caller gets an exception instead of the computed value", rl.where(c))
         if hs:
@@ -875,19 +1000,39 @@ def check_recovery(ck):
             ck.ob(R, rl.key(c, "continues"), okc, "execution continues to the return after a failed write" if okc else
                   "after a failed write the function does not reach its return", rl.where(c))
     pe = FA(ck, "runner.process_existing_memento")
-    rr = pe.some([c for c in pe.calls("read_result")], "read_result call")
-    for c in rr:
-        trys = _try_around(pe, c)
+    rr = [(pe, c) for c in pe.calls("read_result")]
+    if not rr:
+        # the read was moved into a function of the module that is reached through something the call graph does not
+        # follow (a dispatch table, a decorated step): every read of a stored result in the module is held to the clause
+        for q in sorted(ck.cg.funcs):
+            fi = ck.cg.funcs[q]
+            if fi.module is pe.fi.module and fi.qual != pe.qual and any(A.call_attr(x) == "read_result" for x in A.body_calls(fi.node)):
+                fh = FA(ck, fi)
+                rr += [(fh, c) for c in fh.calls("read_result")]
+    ck.need(rr, "runner.process_existing_memento: expected read_result call, found none")
+    for (fr, c) in rr:
+        g, gc = fr, c
+        if not [h for t in _try_around(fr, c) for h in t.handlers if _handler_covers_oserror(h)]:
+            # not guarded where it stands: guarded by a decorator of the function it stands in?
+            w = _guarding_wrapper(ck, fr.fi)
+            if w is not None:
+                g, gc = w
+        trys = _try_around(g, gc)
         hs = [h for t in trys for h in t.handlers if _handler_covers_oserror(h)]
         ok = False
         if hs:
             # whatever the function returns on a path through the handler is "not valid" (early return in the
             # handler or a result variable returned after the try), and nothing is re-raised
-            vals, raises = _after_handler(pe, hs[0])
-            ok = bool(vals) and not raises and all(_valid_flag_is(pe, e, n, False, IN) for (e, n, IN) in vals)
-            _handler_cannot_fail(ck, R, pe, hs[0], c, "while reading a memoized result")
-        ck.ob(R, pe.key(c, "read-error-means-invalid"), ok, "an I/O error while reading means 'not valid' (the caller recomputes)" if ok else
-              "an I/O error while reading a memoized result is not turned into valid_result=False", pe.where(c))
+            vals, raises = _after_handler(g, hs[0])
+            ok = bool(vals) and not raises and all(_valid_flag_is(g, e, n, False, IN) for (e, n, IN) in vals)
+            _handler_cannot_fail(ck, R, g, hs[0], gc, "while reading a memoized result")
+        else:
+            # a context manager of the module whose __exit__ swallows the error: control continues after the `with`
+            sw = _swallowing_manager(ck, g, gc)
+            if sw is not None:
+                ok = _invalid_after_swallow(g, sw[0], sw[1], sw[2])
+        ck.ob(R, fr.key(c, "read-error-means-invalid"), ok, "an I/O error while reading means 'not valid' (the caller recomputes)" if ok else
+              "an I/O error while reading a memoized result is not turned into valid_result=False", fr.where(c))
     gm = FA(ck, "storage_base.DataSourceMetadataSource.get_mementos")
     rm = [c for c in gm.calls("_read_memento")]
     if not rm:
